@@ -452,6 +452,13 @@ impl<'tcx> Cx<'tcx> {
             fields.push(("k", s("fn")));
             fields.push(("path", s(defstr(tcx, *did))));
             fields.push(("args", args_json(args)));
+            // a fn item used as a value (`.map(SmallString::try_from)`): resolve a trait method to its impl, as for direct calls
+            let env = TypingEnv::post_analysis(tcx, owner);
+            if let Ok(Some(inst)) = Instance::try_resolve(tcx, env, *did, args) {
+                let rd = inst.def_id();
+                fields.push(("resolved", s(defstr(tcx, rd))));
+                fields.push(("resolved_local", J::Bool(rd.is_local())));
+            }
             return obj(fields);
         }
         let typing_env = TypingEnv::post_analysis(tcx, owner);
